@@ -191,6 +191,11 @@ def agree_body(ctx, case):
     w = np.asarray(res["ad_nosr"][1]["weights"])
     ctx.case(case, nontrivial=len(set(np.round(w[w > 0], 12).tolist())) >= 2, classes=["agree:" + tag, f"n_batch={P.nb}", f"blocks={case['n_sr_blocks']}x{case['n_ene_blocks']}x{case['n_prop_steps']}"])
     e_plain, e_plain1 = float(e_plain), float(e_plain1)
+    if not (np.isfinite(e_plain) and np.isfinite(e_plain1)):
+        # the generated state's population died (all weights clipped to zero): 0/0 block energies cannot be compared (NaN != NaN); whether
+        # weights may die is C09's question, not a disagreement between entry points
+        ctx.count("skipped:reference-block-energy-not-finite")
+        return
     if float(e_plain2) != e_plain:
         ctx.fail(f"agree:not-reproducible:{tag}", case, f"two identical calls returned {e_plain!r} and {float(e_plain2)!r}")
     sc = max(1.0, abs(e_plain))
